@@ -296,6 +296,58 @@ def _run_history(lat, ops, obs):
     return None
 
 
+def extras_history_child(ops):
+    """in a forked child: histories mixing install_extras(['dataclasses']) - the bundled PREDICATE printer - with a user predicate printer that accepts
+    the same instances; the first-registered predicate accepting the value wins, and installing again does not re-order anything.
+    Returns (got, expected_kind)."""
+    import dataclasses
+    M.install_warning_recorder()
+    del ppm._PREDICATE_REGISTRY[:]
+
+    @dataclasses.dataclass
+    class Point:
+        x: int = 1
+        y: int = 2
+    first = None
+    for op in ops:
+        if op == 'install':
+            prettyprinter.install_extras(['dataclasses'])
+            first = first or 'dataclasses'
+        elif op == 'regp':
+            register_pretty(predicate=lambda v: isinstance(v, Point))(make_printer('USER'))
+            first = first or 'user'
+        elif op == 'print':
+            prettyprinter.pformat(Point(3, 4))
+    got = prettyprinter.pformat(Point(5, 2))
+    return got, first
+
+
+def extras_histories(sh):
+    ops_pool = ['install', 'regp', 'print']
+    n = 0
+    for L_ in (1, 2, 3, 4):
+        for ops in itertools.product(ops_pool, repeat=L_):
+            n += 1
+            if not sh.mine(n):
+                continue
+            status, res = fork_call(extras_history_child, ops, timeout=120)
+            if status != 'ok':
+                sh.inconclusive.append('extras history %s: %s' % (status, str(res)[:200]))
+                continue
+            got, first = res
+            if first == 'user':
+                ok = got == 'USER'
+            elif first == 'dataclasses':
+                ok = got.endswith('Point(x=5)') and got != 'USER'
+            else:
+                ok = 'Point(x=5, y=2)' in got        # nothing registered: the dataclass's own repr
+            if not ok:
+                sh.violation('predicate-order-changed-by-install_extras', 'history %r then print: got %r, but the first-registered predicate printer is %r' % (list(ops), got, first), {'extras_history': list(ops)})
+            else:
+                sh.counters['histories with install_extras and a competing user predicate verified'] += 1
+            sh.case(('extras',) + tuple(ops), True)
+
+
 def alphabet(names):
     ops = []
     for n in names:
@@ -413,6 +465,7 @@ def run_shard(sh):
         if i % 2500 == 0:
             sh.sample({'history': [list(o) for o in ops]})
     flush()
+    extras_histories(sh)
     # histories that register printers for `object` itself (catch-all): global effect, so each runs in a fork of its own
     full_o = alphabet(NAMES + ['O'])
     for i in range(500 if quick else 8000):
@@ -450,6 +503,10 @@ def finalize(m):
 def replay(wit):
     from collections import Counter
     M.install_warning_recorder()
+    if 'extras_history' in wit['case']:
+        status, res = fork_call(extras_history_child, tuple(wit['case']['extras_history']), timeout=120)
+        print('history', wit['case']['extras_history'], '->', res)
+        return True
     ops = [tuple(tuple(x) if isinstance(x, list) else x for x in o) for o in wit['case']['history']]
     print('history:')
     for o in ops:
